@@ -906,6 +906,15 @@ def execute(cls, scenario, ctx):
                 ctx.event("load", op, None)
                 if not fault_class:
                     ctx.violation("C06.load_none", dict(op=op, zone=label))
+                elif op[0] in ("gettz_name", "gettz_colon", "gettz_env",
+                               "gettz_env_colon"):
+                    # only the first candidate file is ever damaged: an
+                    # intact file of that name stands in the second search
+                    # directory, and the search goes on past a file that
+                    # cannot be read
+                    ctx.violation("C06.fault_lost_intact_candidate",
+                                  dict(op=op, zone=label,
+                                       faults=[f for _, f in armed]))
                 loaded.append((op, None))
                 continue
             ctx.event("load", op, "ok")
